@@ -21,6 +21,7 @@ def scopeStep (s : List Bool) : Ev → Option (List Bool)
     | [] => none
   | .apply _ sd _ _ => if sd = s.length then some s else none
   | .apply0 _ sd _ => if sd = s.length then some s else none
+  | .ruleApply _ sd _ _ => if sd = s.length then some s else none
   | _ => some s
 
 def runScope : List Bool → List Ev → Option (List Bool)
@@ -50,6 +51,7 @@ theorem SL_closed : RawClosedE SL where
   app := fun ha hb s hs => by rw [runScope_append, ha s hs]; exact hb s hs
   raise := fun _ _ _ _ _ => rfl
   fam := fun h s hs => h s hs
+  ctlf := fun h s hs => h s hs
   scope := by
     intro env l o ho h s hs
     have h1 := h (false :: s) (by simp [hs])
@@ -61,7 +63,7 @@ theorem SL_closed : RawClosedE SL where
 
 /-- Events that are neither state events nor action calls are invisible to the automaton. -/
 def Ev.scopeNeutral : Ev → Bool
-  | .sctor _ | .ssucc _ _ _ | .sdtor _ | .apply _ _ _ _ | .apply0 _ _ _ => false
+  | .sctor _ | .ssucc _ _ _ | .sdtor _ | .apply _ _ _ _ | .apply0 _ _ _ | .ruleApply _ _ _ _ => false
   | _ => true
 
 theorem SL_neutral (env : Env) {e : Ev} (h : e.scopeNeutral = true) : SL env [e] := by
@@ -73,6 +75,10 @@ theorem SL_act (cx : Ctx) (env : Env) (i : Nat) (act : ActionSpec) (b e : Cursor
   intro s hs
   unfold actEvent
   split <;> simp [runScope, scopeStep, hs]
+
+theorem SL_ract (cx : Ctx) (env : Env) (acts : List RuleAct) (b e : Cursor) : SL env (runActs cx env.sd b e acts).2 :=
+  runActs_raw (SL_closed.nil env) SL_closed.app cx env.sd b e
+    (fun k s hs => by simp [runScope, scopeStep, hs]) acts
 
 theorem SL_app {env : Env} {a b : List Ev} (ha : SL env a) (hb : SL env b) : SL env (a ++ b) := SL_closed.app ha hb
 
@@ -88,7 +94,7 @@ theorem afterBody_scope (cx : Ctx) (i : Nat) (a : AMode) (act : ActionSpec) (env
     split
     · exact SL_neutral env rfl
     · exact SL_closed.nil env
-  · exact SL_app h (SL_neutral env rfl)
+  · exact failureHook_raw_closed SL_app (SL_neutral env rfl) (fun _ => SL_neutral env rfl) h
   · simp only
     split
     · exact SL_app h (SL_neutral env rfl)
@@ -96,7 +102,7 @@ theorem afterBody_scope (cx : Ctx) (i : Nat) (a : AMode) (act : ActionSpec) (env
       split
       · exact SL_neutral env rfl
       · exact SL_closed.nil env
-    · exact SL_app h (SL_cons (SL_act cx env i act _ _) (SL_neutral env rfl))
+    · exact failureHook_raw_closed SL_app (SL_neutral env rfl) (fun _ => SL_neutral env rfl) (SL_app h (SL_act cx env i act _ _))
     · exact SL_app h (SL_cons (SL_act cx env i act _ _) (SL_neutral env rfl))
 
 def ScRec (rec : Rec) : Prop := ∀ a, QRecE SL rec a
@@ -105,12 +111,12 @@ theorem nodeCore_scope {rec : Rec} (hrec : ScRec rec) (cx : Ctx) (k i : Nat) (nd
     (env : Env) (st : St) (r : Ret) (h : nodeCore cx rec k i nd a m env st = some r) : SL env r.raw := by
   unfold nodeCore at h
   split at h
-  · exact body_rawE SL_closed cx k _ a (hrec a) (hrec .nothing) (fun _ => hrec .action) _ _ _ _ h
+  · exact body_rawE SL_closed cx k _ a (hrec a) (hrec .nothing) (fun _ => hrec .action) _ _ (fun _ => SL_ract cx env) _ _ h
   · simp only [Option.map_eq_some_iff] at h
     obtain ⟨r0, h0, rfl⟩ := h
-    have hb := body_rawE SL_closed cx k _ a (hrec a) (hrec .nothing) (fun _ => hrec .action) _ _ _ _ h0
+    have hb := body_rawE SL_closed cx k _ a (hrec a) (hrec .nothing) (fun _ => hrec .action) _ _ (fun _ => SL_ract cx env) _ _ h0
     simp only [guardRestore_raw]
-    exact SL_cons (SL_neutral env rfl) (afterBody_scope cx i a _ env st.cur r0 hb)
+    exact SL_cons (SL_neutral env rfl) (afterBody_scope _ i a _ env st.cur r0 hb)
 
 theorem stateScope_SL {cx : Ctx} {env : Env} {r : Ret} (b : Bool) (h : SL { env with sd := env.sd + 1 } r.raw) :
     SL env (stateScope cx env.sd b r).raw := by
@@ -156,6 +162,7 @@ theorem nodeCall_scope {rec : Rec} (hrec : ScRec rec) (cx : Ctx) (k i : Nat) (a 
         refine stateScope_SL _ ?_
         have := hrec a _ _ _ _ _ h1
         exact fun s hs => this s hs
+      · exact SL_closed.ctlf (nodeCore_scope hrec cx k i nd a m _ st r0 h0)
     simp only [bracket, dropOnFail_raw]
     exact SL_cons (SL_neutral env rfl) (SL_app key (SL_neutral env rfl))
 
@@ -196,6 +203,7 @@ theorem Deeper_closed : RawClosedE Deeper where
     simp only [List.mem_singleton] at he; subst he
     simp [Ev.stateDepth]
   fam := fun h e he => h e he
+  ctlf := fun h e he => h e he
   scope := by
     intro env l o ho h e he
     simp only [List.cons_append, List.append_assoc, List.mem_cons, List.mem_append, List.not_mem_nil, or_false] at he
@@ -210,6 +218,10 @@ theorem Deeper_closed : RawClosedE Deeper where
       · simp at he
       · simp only [List.mem_singleton] at he; subst he; simp [Ev.stateDepth]
     · subst he; simp [Ev.stateDepth]
+
+theorem Deeper_ract (cx : Ctx) (env : Env) (acts : List RuleAct) (b e : Cursor) : Deeper env (runActs cx env.sd b e acts).2 :=
+  runActs_raw (Deeper_closed.nil env) Deeper_closed.app cx env.sd b e
+    (fun k e' he => by simp only [List.mem_singleton] at he; subst he; simp [Ev.stateDepth]) acts
 
 theorem Deeper_neutral (env : Env) {e : Ev} (h : e.scopeNeutral = true) : Deeper env [e] := by
   intro e' he
@@ -243,7 +255,7 @@ theorem afterBody_deeper (cx : Ctx) (i : Nat) (a : AMode) (act : ActionSpec) (en
     split
     · exact Deeper_neutral env rfl
     · exact Deeper_closed.nil env
-  · exact Deeper_closed.app h (Deeper_neutral env rfl)
+  · exact failureHook_raw_closed Deeper_closed.app (Deeper_neutral env rfl) (fun _ => Deeper_neutral env rfl) h
   · simp only
     split
     · exact Deeper_closed.app h (Deeper_neutral env rfl)
@@ -251,7 +263,7 @@ theorem afterBody_deeper (cx : Ctx) (i : Nat) (a : AMode) (act : ActionSpec) (en
       split
       · exact Deeper_neutral env rfl
       · exact Deeper_closed.nil env
-    · exact Deeper_closed.app h (Deeper_cons (Deeper_act cx env i act _ _) (Deeper_neutral env rfl))
+    · exact failureHook_raw_closed Deeper_closed.app (Deeper_neutral env rfl) (fun _ => Deeper_neutral env rfl) (Deeper_closed.app h (Deeper_act cx env i act _ _))
     · exact Deeper_closed.app h (Deeper_cons (Deeper_act cx env i act _ _) (Deeper_neutral env rfl))
 
 def DpRec (rec : Rec) : Prop := ∀ a, QRecE Deeper rec a
@@ -260,12 +272,12 @@ theorem nodeCore_deeper {rec : Rec} (hrec : DpRec rec) (cx : Ctx) (k i : Nat) (n
     (env : Env) (st : St) (r : Ret) (h : nodeCore cx rec k i nd a m env st = some r) : Deeper env r.raw := by
   unfold nodeCore at h
   split at h
-  · exact body_rawE Deeper_closed cx k _ a (hrec a) (hrec .nothing) (fun _ => hrec .action) _ _ _ _ h
+  · exact body_rawE Deeper_closed cx k _ a (hrec a) (hrec .nothing) (fun _ => hrec .action) _ _ (fun _ => Deeper_ract cx env) _ _ h
   · simp only [Option.map_eq_some_iff] at h
     obtain ⟨r0, h0, rfl⟩ := h
-    have hb := body_rawE Deeper_closed cx k _ a (hrec a) (hrec .nothing) (fun _ => hrec .action) _ _ _ _ h0
+    have hb := body_rawE Deeper_closed cx k _ a (hrec a) (hrec .nothing) (fun _ => hrec .action) _ _ (fun _ => Deeper_ract cx env) _ _ h0
     simp only [guardRestore_raw]
-    exact Deeper_cons (Deeper_neutral env rfl) (afterBody_deeper cx i a _ env st.cur r0 hb)
+    exact Deeper_cons (Deeper_neutral env rfl) (afterBody_deeper _ i a _ env st.cur r0 hb)
 
 theorem stateScope_deeper {cx : Ctx} {env : Env} {r : Ret} (b : Bool) (h : Deeper { env with sd := env.sd + 1 } r.raw) :
     Deeper env (stateScope cx env.sd b r).raw := by
@@ -311,6 +323,7 @@ theorem nodeCall_deeper {rec : Rec} (hrec : DpRec rec) (cx : Ctx) (k i : Nat) (a
         refine stateScope_deeper _ ?_
         have := hrec a _ _ _ _ _ h1
         exact fun e he => this e he
+      · exact Deeper_closed.ctlf (nodeCore_deeper hrec cx k i nd a m _ st r0 h0)
     simp only [bracket, dropOnFail_raw]
     exact Deeper_cons (Deeper_neutral env rfl) (Deeper_closed.app key (Deeper_neutral env rfl))
 
